@@ -1,12 +1,84 @@
 import D2V.Model.Edit
-/-! C39 — editing API (placeholder lemmas; replaced by the real development) -/
+import D2V.Proofs.EditPaths
+/-!
+  C39 — Rename and Move relocate objects without losing anything (abstract semantics `Edit.Spec`).
+  `moveWith`    = Rename / same-scope Move / Move(includeDescendants = true)
+  `moveWithout` = cross-scope Move(includeDescendants = false)
+  The clauses evaluated by the driver on the real before/after pair are `moveClauses` (elements matched by label);
+  `moveClauses_spec_*` below show on witnesses that the abstract semantics satisfies them.
+-/
 namespace D2V.Edit
 
-theorem C39_firstFailing_none_iff (cs : List Clause) : firstFailing cs = none ↔ allHold cs = true := by
-  induction cs with
-  | nil => simp [firstFailing, allHold]
-  | cons c r ih =>
-    unfold firstFailing
-    cases h : c.holds <;> simp [allHold, h] at * <;> exact ih
+/-- what an element carries besides its ID -/
+def Obj.content (o : Obj) : String × Attrs := (o.label, o.attrs)
+def Edge.content (e : Edge) : String × Attrs × Bool × Bool × Nat := (e.label, e.attrs, e.sa, e.da, e.idx)
+
+/-- **nothing is lost, nothing is added, labels / attributes / arrows / indices are kept** (in the same order) -/
+theorem rename_move_preserve_elements (d : Diagram) (x n : Path) (ren : List (String × String)) :
+    (Spec.moveWith d x n).objs.map Obj.content = d.objs.map Obj.content ∧
+    (Spec.moveWith d x n).edges.map Edge.content = d.edges.map Edge.content ∧
+    (Spec.moveWithout d x n ren).objs.map Obj.content = d.objs.map Obj.content ∧
+    (Spec.moveWithout d x n ren).edges.map Edge.content = d.edges.map Edge.content := by
+  simp [Spec.moveWith, Spec.moveWithout, Spec.applyMap, List.map_map, Function.comp_def, Obj.content, Edge.content,
+    Obj.mapPath, Edge.mapPaths, filter_const_true]
+
+/-- **only the moved object and what lies below it change ID** -/
+theorem move_only_moved_ids_change (d : Diagram) (x n : Path) (ren : List (String × String)) (o : Obj) (ho : o ∈ d.objs)
+    (hout : isPre x o.path = false) :
+    o ∈ (Spec.moveWith d x n).objs ∧ o ∈ (Spec.moveWithout d x n ren).objs := by
+  constructor
+  · simp only [Spec.moveWith, Spec.applyMap, filter_const_true, List.mem_map]
+    exact ⟨o, by simpa using ho, by simp [Obj.mapPath, reroot_outside x n o.path hout]⟩
+  · simp only [Spec.moveWithout, Spec.applyMap, filter_const_true, List.mem_map]
+    exact ⟨o, by simpa using ho, by simp [Obj.mapPath, moveWithoutPath_outside x n ren o.path hout]⟩
+
+/-- with descendants: everything below `x` follows to `n`, keeping its relative path -/
+theorem move_descendants_follow (x n p : Path) (h : isPre x p = true) : reroot x n p = n ++ p.drop x.length :=
+  reroot_inside x n p h
+
+/-- without descendants: what was below `x` stays in `x`'s former parent (path below the child unchanged) -/
+theorem move_children_stay (x n : Path) (ren : List (String × String)) (p : Path) (h : isUnder x p = true)
+    (hne : samePath p x = false) :
+    ∃ c rest, p.drop x.length = c :: rest ∧ Spec.moveWithoutPath x n ren p = x.dropLast ++ renOf ren c :: rest := by
+  rcases hoist_inside x ren p h with ⟨c, rest, hd, hh⟩
+  exact ⟨c, rest, hd, by simp [Spec.moveWithoutPath, hne, hh]⟩
+
+/-- **connections stay attached to the same objects**: an endpoint that named object `o` before names the image of
+    `o` afterwards (endpoints and objects are rewritten by the same path function) -/
+theorem edges_stay_attached (x n : Path) (ren : List (String × String)) (e : Edge) (o : Obj)
+    (hs : e.src = o.path) :
+    (e.mapPaths (reroot x n)).src = (o.mapPath (reroot x n)).path ∧
+    (e.mapPaths (Spec.moveWithoutPath x n ren)).src = (o.mapPath (Spec.moveWithoutPath x n ren)).path := by
+  simp [Edge.mapPaths, Obj.mapPath, hs]
+
+theorem edges_stay_attached_dst (x n : Path) (ren : List (String × String)) (e : Edge) (o : Obj) (hs : e.dst = o.path) :
+    (e.mapPaths (reroot x n)).dst = (o.mapPath (reroot x n)).path ∧
+    (e.mapPaths (Spec.moveWithoutPath x n ren)).dst = (o.mapPath (Spec.moveWithoutPath x n ren)).path := by
+  simp [Edge.mapPaths, Obj.mapPath, hs]
+
+/-! the driver's clauses hold of the abstract semantics on witnesses (non-vacuity of `moveClauses`) -/
+
+def exD : Diagram :=
+  { objs := [⟨["a"], "L1", []⟩, ⟨["a", "b"], "L2", [("shape", "circle")]⟩, ⟨["a", "b", "c"], "L3", []⟩, ⟨["d"], "L4", []⟩],
+    edges := [⟨["a", "b"], ["d"], false, true, 0, "E1", []⟩, ⟨["a", "b", "c"], ["a"], false, true, 0, "E2", []⟩] }
+
+example : allHold (moveClauses exD (Spec.moveWith exD ["a", "b"] ["d", "b"]) ["a", "b"] ["d"] true) = true := by decide
+example : allHold (moveClauses exD (Spec.moveWithout exD ["a", "b"] ["d", "b"] []) ["a", "b"] ["d"] false) = true := by decide
+example : allHold (moveClauses exD (Spec.moveWith exD ["a", "b"] ["a", "z"]) ["a", "b"] ["a"] true) = true := by decide
+
+/-- the defect class C39-move-into-own-descendant on its witness: `e: L1`, Move("e" → "e.e") returns a diagram
+    without the object; the property predicate rejects it -/
+theorem C39_cx_move_into_own_descendant :
+    firstFailing (moveClauses ⟨[⟨["e"], "L1", []⟩], []⟩ ⟨[], []⟩ ["e"] ["e"] false) = some "move-lost-moved-object" := by
+  decide
+
+/-- the defect class C39-move-on-dotted-keys-corrupts on its witness: `a: L1 {x: L91}; a.d: L5`, Move("a.d" → "a.x.d")
+    returns a: L5, a.x: L91, a.x.d: d -/
+theorem C39_cx_dotted_move_overwrites_label :
+    firstFailing (moveClauses
+      ⟨[⟨["a"], "L1", []⟩, ⟨["a", "x"], "L91", []⟩, ⟨["a", "d"], "L5", []⟩], []⟩
+      ⟨[⟨["a"], "L5", []⟩, ⟨["a", "x"], "L91", []⟩, ⟨["a", "x", "d"], "d", []⟩], []⟩ ["a", "d"] ["a", "x"] false)
+      = some "move-wrong-destination-parent" := by
+  decide
 
 end D2V.Edit
